@@ -17,11 +17,13 @@ pub mod macros {
 pub mod io {
     pub use real_tokio::io::*;
     pub use crate::stdin::{stdin, Stdin};
+    pub use crate::stdout::{stderr, stdout, Stderr, Stdout};
 }
 
 pub mod task;
 pub mod fs;
 pub mod time;
 mod stdin;
+mod stdout;
 
 pub use task::spawn_blocking_detached as __spawn_blocking_detached;
